@@ -20,15 +20,52 @@ use b::exports::verif::c07::exp::{Gadget, GadgetBorrow, Gslot, Guest as ExpGuest
 use b::verif::c07::imp::{self, Holder, Slot, Thing};
 use cmhost::{ledger, with, Choices};
 use std::collections::{BTreeMap, BTreeSet};
+use wit_bindgen::rt::async_support::ErrorContext;
 use wit_parser::{Function, Handle, Resolve, Type, TypeId, WorldItem, WorldKey};
 
 mod exports {
     include!(concat!(env!("OUT_DIR"), "/c07_exports.rs"));
 }
 
+// The component's exports, defined by the generated `export!` macro under their
+// canonical names (`verif:c07/exp#make`, `cabi_post_...`, `...#[dtor]gadget`).
+crate::c07_bindings::export!(G with_types_in crate::c07_bindings);
+
+/// Look an export up by its canonical name, as a host does. A missing export
+/// is a violation (for a destructor: the value could never be destroyed).
+pub fn export_symbol(name: &str) -> *const () {
+    unsafe extern "C" {
+        fn dlsym(handle: *mut core::ffi::c_void, symbol: *const core::ffi::c_char) -> *mut core::ffi::c_void;
+    }
+    static mut CACHE: BTreeMap<String, usize> = BTreeMap::new();
+    #[allow(static_mut_refs)]
+    let p = ledger::host(|| unsafe {
+        if let Some(p) = CACHE.get(name) {
+            return *p;
+        }
+        let c = std::ffi::CString::new(name).unwrap();
+        let p = dlsym(core::ptr::null_mut(), c.as_ptr()) as usize;
+        CACHE.insert(name.to_string(), p);
+        p
+    });
+    if p == 0 {
+        let what = if name.contains("[dtor]") { " (without it the host cannot destroy the resource: the Rust value behind every handle leaks)" } else { "" };
+        violate("H-EXPORT", "export!", format!("the component does not export `{name}`{what}"));
+    }
+    p as *const ()
+}
+/// The host destroys an exported resource whose last handle is gone: it calls
+/// the `[dtor]` export of the interface that defines the resource.
+fn call_dtor(iface: &str, resource: &str, rep: u64) {
+    let f: unsafe extern "C" fn(*mut u8) = unsafe { core::mem::transmute(export_symbol(&format!("verif:c07/{iface}#[dtor]{resource}"))) };
+    ledger::guest(|| unsafe { f(rep as usize as *mut u8) });
+}
+
 // ---------------------------------------------------------------------------
 // The guest's user code.
 pub struct G;
+/// The resource of the function-less interface `types`.
+pub struct MyToken(MyGadget);
 pub struct MyGadget {
     id: u32,
     /// unique per value (ids may collide: `join` derives them)
@@ -37,6 +74,7 @@ pub struct MyGadget {
 }
 static mut GUEST_BAG: Vec<Thing> = Vec::new();
 static mut GUEST_STASH: Vec<Gadget> = Vec::new();
+static mut GUEST_ERRS: Vec<ErrorContext> = Vec::new();
 /// serial -> number of times the value was destroyed
 static mut GADGET_DROPS: BTreeMap<u32, u32> = BTreeMap::new();
 /// serial -> id
@@ -128,6 +166,118 @@ impl ExpGuest for G {
             r
         }
     }
+    /// Reads every context through its handle, keeps the first `keep` of them
+    /// across calls and drops the rest.
+    fn absorb(e: ErrorContext, l: Vec<ErrorContext>, keep: u32) -> u32 {
+        let mut acc = 0u32;
+        let mut k = keep;
+        for c in core::iter::once(e).chain(l) {
+            acc = acc.wrapping_mul(31).wrapping_add(errctx_digest(&c.debug_message()));
+            if k > 0 {
+                k -= 1;
+                unsafe { GUEST_ERRS.push(c) };
+            }
+        }
+        acc
+    }
+    fn relay(e: ErrorContext, keep: bool) -> Option<ErrorContext> {
+        if keep {
+            unsafe { GUEST_ERRS.push(e) };
+            None
+        } else {
+            Some(e)
+        }
+    }
+    fn recall() -> u32 {
+        unsafe {
+            let n = GUEST_ERRS.len() as u32;
+            GUEST_ERRS = Vec::new();
+            n
+        }
+    }
+}
+pub fn errctx_digest(m: &str) -> u32 {
+    m.bytes().fold(m.len() as u32, |a, b| a.wrapping_mul(131).wrapping_add(b as u32))
+}
+mod exp2 {
+    pub use crate::c07_bindings::exports::verif::c07::exp2::*;
+}
+mod types {
+    pub use crate::c07_bindings::exports::verif::c07::types::*;
+}
+mod exp3 {
+    pub use crate::c07_bindings::exports::verif::c07::exp3::*;
+}
+// `impl exp2::Guest for G` and `impl exp3::Guest for G` are generated by the build
+// script from the generated traits (c07_exports.rs): whatever type the generator
+// gives a (possibly aliased) borrow parameter, the call lands in these functions.
+pub trait GadgetRef {
+    fn gid(&self) -> u32;
+}
+impl GadgetRef for GadgetBorrow<'_> {
+    fn gid(&self) -> u32 {
+        self.get::<MyGadget>().id
+    }
+}
+impl GadgetRef for &Gadget {
+    fn gid(&self) -> u32 {
+        self.get::<MyGadget>().id
+    }
+}
+impl GadgetRef for Gadget {
+    fn gid(&self) -> u32 {
+        self.get::<MyGadget>().id
+    }
+}
+pub trait TokenRef {
+    fn tid(&self) -> u32;
+}
+impl TokenRef for types::TokenBorrow<'_> {
+    fn tid(&self) -> u32 {
+        self.get::<MyToken>().0.id
+    }
+}
+impl TokenRef for &types::Token {
+    fn tid(&self) -> u32 {
+        self.get::<MyToken>().0.id
+    }
+}
+impl TokenRef for types::Token {
+    fn tid(&self) -> u32 {
+        self.get::<MyToken>().0.id
+    }
+}
+pub mod exp2_impl {
+    use super::*;
+    pub fn poke(g: impl GadgetRef) -> u32 {
+        g.gid()
+    }
+    pub fn poke_alias(g: impl GadgetRef, n: u32) -> u32 {
+        g.gid().wrapping_add(n)
+    }
+    /// consumes the handle it gets and returns a handle to a new value
+    pub fn swap(g: exp2::GadgetAlias) -> exp2::Gadget {
+        let old: MyGadget = g.into_inner();
+        Gadget::new(MyGadget::create(join_id(old.id, 7)))
+    }
+}
+impl types::Guest for G {
+    type Token = MyToken;
+}
+impl types::GuestToken for MyToken {}
+pub mod exp3_impl {
+    use super::*;
+    pub fn make_token(n: u32) -> exp3::Token {
+        exp3::Token::new(MyToken(MyGadget::create(n)))
+    }
+    pub fn token_value(t: impl TokenRef) -> u32 {
+        t.tid()
+    }
+    pub fn token_sink(t: exp3::Token) -> u32 {
+        let v = t.get::<MyToken>().0.id;
+        drop(t);
+        v
+    }
 }
 impl b::Guest for G {
     /// A small interpreter over a bag of imported `thing` handles that persists
@@ -205,6 +355,37 @@ impl b::Guest for G {
                     acc = acc.wrapping_add(e.debug_message().len() as u32);
                     drop(e);
                 }
+                // pass error contexts to an import (a fresh one or a kept one, with or
+                // without a second one), keep or drop what comes back
+                10 => {
+                    let errs = unsafe { &mut GUEST_ERRS };
+                    let (a, b) = (arg(), arg());
+                    let e = if a % 2 == 1 && !errs.is_empty() { errs.remove(a as usize % errs.len()) } else { ErrorContext::new(&format!("guest-{a}")) };
+                    let o = match b % 3 {
+                        0 => None,
+                        1 => Some(ErrorContext::new(&format!("guest-o-{b}"))),
+                        _ => errs.pop(),
+                    };
+                    match imp::annotate(e, o) {
+                        Ok(n) => acc = acc.wrapping_add(n),
+                        Err(c) => {
+                            acc = acc.wrapping_add(errctx_digest(&c.debug_message()));
+                            if b % 2 == 0 {
+                                errs.push(c);
+                            }
+                        }
+                    }
+                }
+                11 => {
+                    let errs = unsafe { &mut GUEST_ERRS };
+                    if !errs.is_empty() {
+                        let i = arg() as usize % errs.len();
+                        drop(errs.remove(i));
+                    }
+                    if errs.is_empty() {
+                        *errs = Vec::new();
+                    }
+                }
                 _ => {}
             }
         }
@@ -218,6 +399,17 @@ impl b::Guest for G {
 enum RTy {
     Thing,
     Gadget,
+    Token,
+}
+impl RTy {
+    /// (interface that defines the exported resource, its name)
+    fn exported(self) -> (&'static str, &'static str) {
+        match self {
+            RTy::Gadget => ("exp", "gadget"),
+            RTy::Token => ("types", "token"),
+            RTy::Thing => unreachable!(),
+        }
+    }
 }
 #[derive(Clone, Copy, Debug)]
 struct HEntry {
@@ -231,6 +423,9 @@ struct St {
     exports: BTreeMap<String, Function>,
     thing_ty: TypeId,
     gadget_ty: TypeId,
+    token_ty: TypeId,
+    /// tokens the host owns: rep -> expected id
+    tokens: Vec<(u64, u32)>,
     table: BTreeMap<u32, HEntry>,
     free: Vec<u32>,
     next_index: u32,
@@ -245,9 +440,12 @@ struct St {
     in_import: u32,
     lent_now: Vec<u32>,
     reused: u32,
+    next_ec: u32,
+    /// the host is lifting the result of a synchronous export
+    lifting_export_result: bool,
 }
 static mut ST: Option<St> = None;
-static mut WORLD: Option<&'static (Resolve, BTreeMap<String, Function>, BTreeMap<String, Function>, TypeId, TypeId)> = None;
+static mut WORLD: Option<&'static (Resolve, BTreeMap<String, Function>, BTreeMap<String, Function>, TypeId, TypeId, TypeId)> = None;
 fn st() -> &'static mut St {
     unsafe { ST.as_mut().unwrap() }
 }
@@ -255,7 +453,7 @@ fn violate(class: &str, site: &str, msg: String) -> ! {
     with(|h| h.violate(class, site, msg))
 }
 
-fn world() -> &'static (Resolve, BTreeMap<String, Function>, BTreeMap<String, Function>, TypeId, TypeId) {
+fn world() -> &'static (Resolve, BTreeMap<String, Function>, BTreeMap<String, Function>, TypeId, TypeId, TypeId) {
     unsafe {
         if let Some(w) = WORLD {
             return w;
@@ -264,7 +462,7 @@ fn world() -> &'static (Resolve, BTreeMap<String, Function>, BTreeMap<String, Fu
         let pkg = resolve.push_str("w.wit", C07_WIT).expect("c07 wit");
         let wid = resolve.select_world(&[pkg], None).unwrap();
         let (mut imports, mut exports) = (BTreeMap::new(), BTreeMap::new());
-        let (mut thing, mut gadget) = (None, None);
+        let (mut thing, mut gadget, mut token) = (None, None, None);
         for (dir, items) in [(0, &resolve.worlds[wid].imports), (1, &resolve.worlds[wid].exports)] {
             for (key, item) in items.iter() {
                 match item {
@@ -278,7 +476,10 @@ fn world() -> &'static (Resolve, BTreeMap<String, Function>, BTreeMap<String, Fu
                                 thing = Some(*t);
                             }
                             if n == "gadget" {
-                                gadget = Some(*t);
+                                gadget = Some(type_root(&resolve, *t));
+                            }
+                            if n == "token" {
+                                token = Some(type_root(&resolve, *t));
                             }
                         }
                     }
@@ -290,14 +491,14 @@ fn world() -> &'static (Resolve, BTreeMap<String, Function>, BTreeMap<String, Fu
                 let _: &WorldKey = key;
             }
         }
-        let w: &'static _ = Box::leak(Box::new((resolve, imports, exports, thing.unwrap(), gadget.unwrap())));
+        let w: &'static _ = Box::leak(Box::new((resolve, imports, exports, thing.unwrap(), gadget.unwrap(), token.unwrap())));
         WORLD = Some(w);
         w
     }
 }
 
-fn rty(resolve: &Resolve, id: TypeId) -> RTy {
-    // follow aliases to the resource definition
+/// Follow `use` and `type x = y` aliases to the resource definition.
+fn type_root(resolve: &Resolve, id: TypeId) -> TypeId {
     let mut cur = id;
     loop {
         match &resolve.types[cur].kind {
@@ -305,7 +506,32 @@ fn rty(resolve: &Resolve, id: TypeId) -> RTy {
             _ => break,
         }
     }
-    if cur == st().thing_ty { RTy::Thing } else { RTy::Gadget }
+    cur
+}
+fn rty(resolve: &Resolve, id: TypeId) -> RTy {
+    let cur = type_root(resolve, id);
+    let s = st();
+    if cur == s.thing_ty {
+        RTy::Thing
+    } else if cur == s.token_ty {
+        RTy::Token
+    } else if cur == s.gadget_ty {
+        RTy::Gadget
+    } else {
+        cmhost::report::harness_error("unknown resource type in the C07 world")
+    }
+}
+
+/// Messages and traces never contain addresses: a value that cannot be a table
+/// index (a rep used where a handle belongs) is shown as such.
+fn idx(i: u32) -> String {
+    if i >= 1 << 20 { "<a value that is no table index, probably a rep>".to_string() } else { i.to_string() }
+}
+fn ent(e: Option<HEntry>) -> String {
+    match e {
+        Some(e) => format!("a {:?} handle (lent {} times)", e.ty, e.lends),
+        None => "nothing".to_string(),
+    }
 }
 
 fn alloc_index(e: HEntry) -> u32 {
@@ -341,12 +567,14 @@ fn guest_gives(v: &Val, ty: &Type, what: &str, lent: &mut Vec<u32>) {
                     s.free.push(*i);
                     if want == RTy::Gadget {
                         s.owned.push((e.rep, 0));
+                    } else if want == RTy::Token {
+                        s.tokens.push((e.rep, 0));
                     } else {
                         // the host now owns the thing; it destroys it at some point
                         *s.things.get_mut(&e.rep).unwrap() = true;
                     }
                 }
-                other => violate("H-HANDLE", what, format!("{what}: the guest passed own handle {i} of type {want:?}, but its table has {other:?} there (use after transfer/drop, or a double transfer)")),
+                other => violate("H-HANDLE", what, format!("{what}: the guest passed own handle {} of type {want:?}, but its table has {} there (use after transfer/drop, or a double transfer)", idx(*i), ent(other))),
             }
         }
         Val::Borrow(i) => {
@@ -356,9 +584,87 @@ fn guest_gives(v: &Val, ty: &Type, what: &str, lent: &mut Vec<u32>) {
                     e.lends += 1;
                     lent.push(*i);
                 }
-                other => violate("H-HANDLE", what, format!("{what}: the guest lent handle {i} of type {want:?}, but its table has {other:?} there")),
+                other => violate("H-HANDLE", what, format!("{what}: the guest lent handle {} of type {want:?}, but its table has {} there", idx(*i), ent(other.map(|e| *e)))),
             }
         }
+        Val::U(i) if matches!(ty, Type::ErrorContext) => errctx_from_guest(*i as u32, what),
+        _ => {}
+    }
+}
+
+/// The host lifts an `error-context` the guest passed: the index must name a
+/// live context; the entry stays in the guest's table (the guest still has to
+/// drop its handle, exactly once).
+fn errctx_from_guest(i: u32, what: &str) {
+    let s = st();
+    match with(|h| h.errctx_get(i).map(|m| m.to_string())) {
+        Some(m) => with(|h| cmhost::tr!(h, "{what}: error-context {i} lifted (`{m}`); the guest keeps its handle")),
+        None if with(|h| h.errctx_recent_drops.contains(&i)) => {
+            // a recorded finding: `ErrorContextLower` emits `(e).handle()` on a by-value operand; unless
+            // the operand is a top-level parameter of a synchronous import it goes out of scope at once,
+            // and its destructor drops the handle that was just lowered, before the host can lift it
+            let pos = if s.lifting_export_result { "result of a synchronous export" } else { "nested parameter of an import" };
+            let msg = format!("the guest lowered error-context handle {i} ({pos}) and dropped that same handle (error-context.drop) before the host could lift it");
+            if crate::strict_known() {
+                violate("H-ERRCTX-DROPPED-BEFORE-LIFT", "ErrorContextLower", msg);
+            }
+            crate::note_known("H-ERRCTX-DROPPED-BEFORE-LIFT", "ErrorContextLower", &format!("{what}: {msg}"));
+        }
+        None => violate("H-HANDLE", what, format!("{what}: the guest passed error-context handle {i}, which is not a live error context in its table (dropped before the host lifted it, or never owned)")),
+    }
+}
+/// A new error context lowered into the guest's table by the host.
+fn host_errctx() -> (u32, String) {
+    let s = st();
+    s.next_ec += 1;
+    let m = format!("host-{}{}", "x".repeat((s.next_ec % 5) as usize), s.next_ec);
+    let i = with(|h| h.errctx_new(m.clone()));
+    with(|h| cmhost::tr!(h, "the host lowers a new error-context `{m}` -> {i}"));
+    (i, m)
+}
+/// Replace the placeholder at every `error-context` leaf of a host-made value.
+fn fill_errctx(resolve: &Resolve, v: &mut Val, ty: &Type) {
+    use wit_parser::TypeDefKind as K;
+    match ty {
+        Type::ErrorContext => *v = Val::U(host_errctx().0 as u64),
+        Type::Id(id) => match &resolve.types[*id].kind {
+            K::Type(t) => fill_errctx(resolve, v, t),
+            K::List(t) => {
+                if let Val::List(xs) = v {
+                    xs.iter_mut().for_each(|x| fill_errctx(resolve, x, t));
+                }
+            }
+            K::Record(r) => {
+                if let Val::Record(xs) = v {
+                    xs.iter_mut().zip(r.fields.iter()).for_each(|(x, fd)| fill_errctx(resolve, x, &fd.ty));
+                }
+            }
+            K::Tuple(t) => {
+                if let Val::Record(xs) = v {
+                    xs.iter_mut().zip(t.types.iter()).for_each(|(x, t)| fill_errctx(resolve, x, t));
+                }
+            }
+            K::Variant(vr) => {
+                if let Val::Variant(d, Some(p)) = v {
+                    if let Some(t) = vr.cases[*d as usize].ty {
+                        fill_errctx(resolve, p, &t);
+                    }
+                }
+            }
+            K::Option(t) => {
+                if let Val::Variant(1, Some(p)) = v {
+                    fill_errctx(resolve, p, t);
+                }
+            }
+            K::Result(r) => {
+                if let Val::Variant(d, Some(p)) = v {
+                    if let Some(t) = if *d == 0 { r.ok } else { r.err } {
+                        fill_errctx(resolve, p, &t);
+                    }
+                }
+            }
+            _ => {}
+        },
         _ => {}
     }
 }
@@ -372,6 +678,9 @@ fn handle_id(ty: &Type) -> TypeId {
 /// Walk a value with its type, calling `f` on every handle.
 fn walk_handles(resolve: &Resolve, v: &Val, ty: &Type, f: &mut dyn FnMut(&Val, &Type)) {
     use wit_parser::TypeDefKind as K;
+    if let Type::ErrorContext = ty {
+        return f(v, ty);
+    }
     if let Type::Id(id) = ty {
         match &resolve.types[*id].kind {
             K::Type(t) => return walk_handles(resolve, v, t, f),
@@ -438,10 +747,15 @@ fn dispatch(module: &str, name: &str, args: &[u64]) -> u64 {
     // resource intrinsics
     if let Some(r) = name.strip_prefix("[resource-drop]") {
         let i = args[0] as u32;
-        let want = if r == "thing" { RTy::Thing } else { RTy::Gadget };
+        let want = match r {
+            "thing" => RTy::Thing,
+            "gadget" => RTy::Gadget,
+            "token" => RTy::Token,
+            _ => violate("ABI", "import", format!("unexpected import {module} / {name}")),
+        };
         let e = match s.table.get(&i).copied() {
             Some(e) if e.ty == want => e,
-            other => violate("H-HANDLE", "resource.drop", format!("the guest dropped {r} handle {i}, but its table has {other:?} there (double drop, or drop after transfer)")),
+            other => violate("H-HANDLE", "resource.drop", format!("the guest dropped {r} handle {}, but its table has {} there (double drop, drop after transfer, or a borrowed rep treated as a handle)", idx(i), ent(other))),
         };
         if e.lends > 0 {
             violate("H-HANDLE", "resource.drop", format!("the guest dropped {r} handle {i} while it is lent out as a borrow"));
@@ -453,27 +767,39 @@ fn dispatch(module: &str, name: &str, args: &[u64]) -> u64 {
             RTy::Thing => {
                 *s.things.get_mut(&e.rep).unwrap() = true;
             }
-            RTy::Gadget => {
-                // the guest defines gadget: dropping its last own handle runs the destructor
-                ledger::guest(|| unsafe { Gadget::dtor::<MyGadget>(e.rep as usize as *mut u8) });
+            RTy::Gadget | RTy::Token => {
+                // the guest defines the resource: dropping its last own handle makes the host
+                // call the destructor export
+                let (iface, res) = want.exported();
+                call_dtor(iface, res, e.rep);
             }
         }
         return 0;
     }
-    if name == "[resource-new]gadget" {
+    if let Some(r) = name.strip_prefix("[resource-new]") {
+        let ty = match r {
+            "gadget" => RTy::Gadget,
+            "token" => RTy::Token,
+            _ => violate("ABI", "import", format!("unexpected import {module} / {name}")),
+        };
         let rep = args[0];
         if rep >= (1 << 32) {
             cmhost::report::harness_error("exported resource rep above 4 GiB (guest arena misconfigured)");
         }
-        let i = alloc_index(HEntry { ty: RTy::Gadget, rep, lends: 0 });
-        with(|h| cmhost::tr!(h, "resource.new(gadget) -> {i}"));
+        let i = alloc_index(HEntry { ty, rep, lends: 0 });
+        with(|h| cmhost::tr!(h, "resource.new({r}) -> {i}"));
         return i as u64;
     }
-    if name == "[resource-rep]gadget" {
+    if let Some(r) = name.strip_prefix("[resource-rep]") {
+        let ty = match r {
+            "gadget" => RTy::Gadget,
+            "token" => RTy::Token,
+            _ => violate("ABI", "import", format!("unexpected import {module} / {name}")),
+        };
         let i = args[0] as u32;
         return match s.table.get(&i) {
-            Some(e) if e.ty == RTy::Gadget => e.rep,
-            other => violate("H-HANDLE", "resource.rep", format!("resource.rep(gadget {i}): the guest's table has {other:?} there (use of a handle it no longer owns)")),
+            Some(e) if e.ty == ty => e.rep,
+            other => violate("H-HANDLE", "resource.rep", format!("resource.rep({r} {}): the guest's table has {} there (use of a handle it does not own: a borrowed rep treated as a handle, or a handle already given away)", idx(i), ent(other.copied()))),
         };
     }
     let f = match s.imports.get(name) {
@@ -528,6 +854,8 @@ fn dispatch(module: &str, name: &str, args: &[u64]) -> u64 {
                     }, 0)
                 })
             };
+            let mut v = v;
+            fill_errctx(resolve, &mut v, t);
             Some(v)
         }
     };
@@ -538,6 +866,7 @@ fn dispatch(module: &str, name: &str, args: &[u64]) -> u64 {
         }
     }
     s.in_import -= 1;
+    with(|h| h.errctx_recent_drops.clear());
     with(|h| cmhost::tr!(h, "   -> {}", ret.as_ref().map(short).unwrap_or("()".into())));
     match (&ret, &f.result) {
         (Some(v), Some(t)) => {
@@ -579,6 +908,7 @@ fn call_export(name: &str, vals: &[Val]) -> Option<Val> {
         c.lower_flat(v, &p.ty, &mut flat);
     }
     let key = cabi_key(name);
+    with(|h| h.errctx_recent_drops.clear());
     with(|h| cmhost::tr!(h, "host calls export {name}({})", vals.iter().map(short_masked).collect::<Vec<_>>().join(", ")));
     let r = ledger::guest(|| unsafe { exports::call_export(&key, &flat) });
     let out = f.result.as_ref().map(|t| {
@@ -598,7 +928,9 @@ fn call_export(name: &str, vals: &[Val]) -> Option<Val> {
     // handles in the result leave the guest's table
     if let (Some(v), Some(t)) = (&out, &f.result) {
         let mut lent = vec![];
+        s.lifting_export_result = true;
         walk_handles(resolve, v, t, &mut |hv, ht| guest_gives(hv, ht, name, &mut lent));
+        s.lifting_export_result = false;
     }
     ledger::guest(|| unsafe { exports::post_return(&key, &[r]) });
     with(|h| cmhost::tr!(h, "   -> {}", out.as_ref().map(short).unwrap_or("()".into())));
@@ -633,6 +965,8 @@ pub fn run_one(fam: &str, seed: u64, idx: u64, ch: Choices, trace: bool) -> RunR
             exports: w.2.clone(),
             thing_ty: w.3,
             gadget_ty: w.4,
+            token_ty: w.5,
+            tokens: vec![],
             table: BTreeMap::new(),
             free: vec![],
             next_index: 0,
@@ -644,6 +978,8 @@ pub fn run_one(fam: &str, seed: u64, idx: u64, ch: Choices, trace: bool) -> RunR
             in_import: 0,
             lent_now: vec![],
             reused: 0,
+            next_ec: 0,
+            lifting_export_result: false,
         });
     }
     st().reuse = with(|h| h.ch.pick(3));
@@ -659,7 +995,7 @@ pub fn run_one(fam: &str, seed: u64, idx: u64, ch: Choices, trace: bool) -> RunR
     for _ in 0..nops {
         steps += 1;
         let nowned = st().owned.len();
-        let op = with(|h| h.ch.weighted(&[4, 2, if nowned > 0 { 3 } else { 0 }, if nowned > 1 { 3 } else { 0 }, if nowned > 0 { 2 } else { 0 }, 2, if nowned > 0 { 3 } else { 0 }, if nowned > 0 { 3 } else { 0 }, if nowned > 0 { 2 } else { 0 }, 2, if nowned > 0 { 2 } else { 0 }, 5]));
+        let op = with(|h| h.ch.weighted(&[4, 2, if nowned > 0 { 3 } else { 0 }, if nowned > 1 { 3 } else { 0 }, if nowned > 0 { 2 } else { 0 }, 2, if nowned > 0 { 3 } else { 0 }, if nowned > 0 { 3 } else { 0 }, if nowned > 0 { 2 } else { 0 }, 2, if nowned > 0 { 2 } else { 0 }, 5, 2, 2, 1, if nowned > 0 { 2 } else { 0 }, if nowned > 0 { 1 } else { 0 }, 2, if st().tokens.is_empty() { 0 } else { 3 }]));
         match op {
             // constructor
             0 => {
@@ -808,12 +1144,130 @@ pub fn run_one(fam: &str, seed: u64, idx: u64, ch: Choices, trace: bool) -> RunR
                 host_drop_gadget(rep, id);
                 with(|h| h.fault("host_drops_own_early"));
             }
+            // absorb(error-context, list<error-context>, keep): every handle reaches its context
+            12 => {
+                let (e, m) = host_errctx();
+                let n = pick(3);
+                let mut expect = errctx_digest(&m);
+                let l: Vec<Val> = (0..n)
+                    .map(|_| {
+                        let (i, m) = host_errctx();
+                        expect = expect.wrapping_mul(31).wrapping_add(errctx_digest(&m));
+                        Val::U(i as u64)
+                    })
+                    .collect();
+                let keep = pick(n + 2) as u64;
+                let r = call_export("absorb", &[Val::U(e as u64), Val::List(l), Val::U(keep)]);
+                if r != Some(Val::U(expect as u64)) {
+                    violate("H-IDENTITY", "absorb", format!("absorb returned {r:?}, expected digest {expect} of the {} messages passed", n + 1));
+                }
+                with(|h| h.fault("error_context_params"));
+                if keep > 0 {
+                    with(|h| h.fault("error_context_kept_across_calls"));
+                }
+            }
+            // relay(error-context, keep) -> option<error-context>
+            13 => {
+                let (e, m) = host_errctx();
+                let keep = pick(2) == 1;
+                let r = call_export("relay", &[Val::U(e as u64), Val::Bool(keep)]);
+                match (&r, keep) {
+                    (Some(Val::Variant(0, _)), true) => {}
+                    (Some(Val::Variant(1, Some(b))), false) => {
+                        // (whether the handle was live when the result was lifted: call_export)
+                        if let Val::U(i) = **b {
+                            if let Some(got) = with(|h| h.errctx_get(i as u32).map(|s| s.to_string())) {
+                                if got != m {
+                                    violate("H-IDENTITY", "relay", format!("relay returned a handle to `{got}`, the context passed in was `{m}`"));
+                                }
+                            }
+                        }
+                        with(|h| h.fault("error_context_returned"));
+                    }
+                    _ => violate("H-VALUES", "relay", format!("relay(keep={keep}) returned {r:?}")),
+                }
+            }
+            // recall(): the guest drops the error contexts it kept
+            14 => {
+                call_export("recall", &[]);
+            }
+            // exp2: the exported resource borrowed through `use` and through a type alias
+            15 => {
+                if nowned > 0 {
+                    let (rep, id) = st().owned[pick(nowned)];
+                    let (r, expect) = if pick(2) == 0 {
+                        (call_export("poke", &[Val::Borrow(rep as u32)]), id)
+                    } else {
+                        let n = pick(100) as u32;
+                        (call_export("poke-alias", &[Val::Borrow(rep as u32), Val::U(n as u64)]), id.wrapping_add(n))
+                    };
+                    if r != Some(Val::U(expect as u64)) {
+                        violate("H-IDENTITY", "poke", format!("poke returned {r:?}, expected {expect}"));
+                    }
+                    with(|h| h.fault("exported_resource_borrowed_through_alias"));
+                }
+            }
+            // exp2.swap(own through an alias) -> own
+            16 => {
+                if nowned > 0 {
+                    let (h1, id1) = give_gadget(pick(nowned));
+                    call_export("swap", &[Val::Own(h1)]);
+                    let expect = join_id(id1, 7);
+                    st().owned.last_mut().unwrap().1 = expect;
+                    let (rep, _) = *st().owned.last().unwrap();
+                    check_id(rep, expect, "swap result");
+                    with(|h| h.fault("exported_resource_owned_through_alias"));
+                }
+            }
+            // exp3.make-token: a resource defined by an interface without functions
+            17 => {
+                let id = fresh_gid();
+                let before = st().tokens.len();
+                call_export("make-token", &[Val::U(id as u64)]);
+                if st().tokens.len() != before + 1 {
+                    violate("H-HANDLE", "make-token", "make-token did not transfer exactly one handle".into());
+                }
+                st().tokens.last_mut().unwrap().1 = id;
+                with(|h| h.fault("resource_of_function_less_interface"));
+            }
+            // exp3.token-value(borrow) / token-sink(own) / the host drops a token
+            18 => {
+                let nt = st().tokens.len();
+                if nt > 0 {
+                    let k = pick(nt);
+                    let (rep, id) = st().tokens[k];
+                    match pick(3) {
+                        0 => {
+                            let r = call_export("token-value", &[Val::Borrow(rep as u32)]);
+                            if r != Some(Val::U(id as u64)) {
+                                violate("H-IDENTITY", "token-value", format!("token-value returned {r:?}, expected {id}"));
+                            }
+                        }
+                        1 => {
+                            st().tokens.remove(k);
+                            let h = alloc_index(HEntry { ty: RTy::Token, rep, lends: 0 });
+                            let before = unsafe { TOTAL_DROPS };
+                            let r = call_export("token-sink", &[Val::Own(h)]);
+                            if r != Some(Val::U(id as u64)) {
+                                violate("H-IDENTITY", "token-sink", format!("token-sink returned {r:?}, expected {id}"));
+                            }
+                            if unsafe { TOTAL_DROPS } != before + 1 {
+                                violate("H-DROP", "token-sink", format!("the guest dropped its only handle to token {id}; {} Rust values were destroyed (expected exactly one)", unsafe { TOTAL_DROPS } - before));
+                            }
+                        }
+                        _ => {
+                            st().tokens.remove(k);
+                            host_drop_token(rep, id);
+                        }
+                    }
+                }
+            }
             // run a script over the imported resource
             _ => {
                 let n = 1 + pick(8);
                 let mut script = vec![];
                 for _ in 0..n {
-                    let op = pick(10) as u64;
+                    let op = pick(12) as u64;
                     script.push(Val::U(op));
                     for _ in 0..3 {
                         script.push(Val::U(pick(1000) as u64));
@@ -834,6 +1288,7 @@ pub fn run_one(fam: &str, seed: u64, idx: u64, ch: Choices, trace: bool) -> RunR
     }
     // ---- end of run: everything is released
     call_export("run", &[Val::List(vec![Val::U(8)])]);
+    call_export("recall", &[]);
     loop {
         let before = st().owned.len();
         let r = call_export("unstash", &[]);
@@ -848,10 +1303,13 @@ pub fn run_one(fam: &str, seed: u64, idx: u64, ch: Choices, trace: bool) -> RunR
         let id = ledger::guest(|| unsafe { exports::call_export("method_gadget_id", &[rep]) }) as u32;
         host_drop_gadget(rep, id);
     }
+    while let Some((rep, id)) = st().tokens.pop() {
+        host_drop_token(rep, id);
+    }
     STASHED.with(|s| s.borrow_mut().clear());
     let s = st();
     if !s.table.is_empty() {
-        violate("H-HANDLE", "end", format!("handles still in the guest's table after everything was released: {:?}", s.table));
+        violate("H-HANDLE", "end", format!("handles still in the guest's table after everything was released: {:?}", s.table.iter().map(|(i, e)| format!("{i}: {}", ent(Some(*e)))).collect::<Vec<_>>()));
     }
     let undestroyed: Vec<u64> = s.things.iter().filter(|(_, d)| !**d).map(|(k, _)| *k).collect();
     if !undestroyed.is_empty() {
@@ -868,7 +1326,7 @@ pub fn run_one(fam: &str, seed: u64, idx: u64, ch: Choices, trace: bool) -> RunR
         }
     }
     if with(|h| h.error_contexts) != 0 {
-        violate("H-HANDLE", "end", "error-context handles were not dropped".into());
+        violate("H-HANDLE", "end", format!("{} error-context handles are still in the guest's table after everything was released (leak)", with(|h| h.error_contexts)));
     }
     let live = ledger::live_blocks();
     if !live.is_empty() {
@@ -899,8 +1357,8 @@ thread_local! { static STASHED: std::cell::RefCell<Vec<u32>> = const { std::cell
 fn remap_script(raw: Vec<Val>) -> Vec<Val> {
     let need = |op: u64| -> usize {
         match op {
-            0 | 1 | 2 | 6 | 7 => 1,
-            3 => 2,
+            0 | 1 | 2 | 6 | 7 | 11 => 1,
+            3 | 10 => 2,
             4 | 5 => 3,
             _ => 0,
         }
@@ -916,10 +1374,19 @@ fn remap_script(raw: Vec<Val>) -> Vec<Val> {
     out
 }
 
+fn host_drop_token(rep: u64, id: u32) {
+    let before = unsafe { TOTAL_DROPS };
+    with(|h| cmhost::tr!(h, "host drops its own<token> (id {id}): destructor runs"));
+    call_dtor("types", "token", rep);
+    let after = unsafe { TOTAL_DROPS };
+    if after != before + 1 {
+        violate("H-DROP", "dtor", format!("dropping the host's handle to token {id} destroyed {} Rust values (expected exactly one, and only now)", after - before));
+    }
+}
 fn host_drop_gadget(rep: u64, id: u32) {
     let before = unsafe { TOTAL_DROPS };
     with(|h| cmhost::tr!(h, "host drops its own<gadget> (id {id}): destructor runs"));
-    ledger::guest(|| unsafe { Gadget::dtor::<MyGadget>(rep as usize as *mut u8) });
+    call_dtor("exp", "gadget", rep);
     let after = unsafe { TOTAL_DROPS };
     if after != before + 1 {
         violate("H-DROP", "dtor", format!("dropping the host's handle to exported resource {id} destroyed {} Rust values (expected exactly one, and only now)", after - before));
